@@ -94,6 +94,8 @@ def build_vp(spec):
     if spec.get("par"):
         p = t.PRESET_PIXEL_ASPECT_RATIOS[t.PresetPixelAspectRatios(spec["par"])]
         vp["pixel_aspect_ratio_numer"], vp["pixel_aspect_ratio_denom"] = p.numerator, p.denominator
+    if spec.get("par_custom"):
+        vp["pixel_aspect_ratio_numer"], vp["pixel_aspect_ratio_denom"] = spec["par_custom"]
     if spec.get("colour"):
         vp["color_primaries_index"] = list(t.PresetColorPrimaries)[spec["colour"][0]]
         vp["color_matrix_index"] = list(t.PresetColorMatrices)[spec["colour"][1]]
@@ -309,6 +311,25 @@ def run(ctx):
             vp, pcm = build_vp(spec)
             ctx.count(1, key=(name, spec["w"], spec["h"], spec["cdf"], spec["pcm"], spec["ss"], depth_of(vp["luma_excursion"]),
                               depth_of(vp["color_diff_excursion"]), tuple(spec["colour"] or ())), bucket=name + " " + bucket_of(vp))
+            if lit is not None:
+                lits.append(lit)
+                metas.append({"generator": name, "spec": spec})
+    # ---- sprite boundary sweep: frames just below / at / above the size of the (aspect-adapted) 128x128 sprite -----
+    SPRITE = 128
+    for i in range(ctx.pick(14, 160)):
+        spec = gen_spec(rng, max_w=16, max_h=16)
+        pn, pd = rng.choice([(1, 1), (10, 11), (12, 11), (40, 33), (16, 11), (4, 3), (8, 9), (3, 4), (2, 1), (1, 2)])
+        sw = SPRITE * pd // pn                      # sprite width after aspect adaptation
+        xs = 1 if spec["cdf"] == 0 else 2
+        ys = (2 if spec["cdf"] == 2 else 1) * (2 if (spec["pcm"] == 1 or spec["ss"] == 1) else 1)
+        w = rng.choice([sw - 1, sw, sw + 1, sw + 12, SPRITE, SPRITE + 1, 2 * sw, rng.randint(8, 2 * sw)])
+        h = rng.choice([SPRITE - 8, SPRITE, SPRITE + 1, SPRITE + 4, SPRITE + 16, 2 * SPRITE, rng.randint(8, 2 * SPRITE)])
+        spec["w"], spec["h"] = max(xs, w // xs * xs), max(ys, h // ys * ys)
+        spec["par"], spec["par_custom"] = None, [pn, pd]
+        spec["num_frames"] = rng.choice([1, 2])
+        for name in ("static_sprite", "moving_sprite"):
+            lit, failed = generator_case(ctx, name, spec)
+            ctx.count(1, key=("sprite-boundary", name, spec["w"], spec["h"], pn, pd, spec["cdf"], spec["pcm"], spec["ss"]), bucket="sprite-boundary " + name)
             if lit is not None:
                 lits.append(lit)
                 metas.append({"generator": name, "spec": spec})
